@@ -292,10 +292,18 @@ def run1 (c : Case) : CaseResult := Id.run do
             if implCostHi < witCostLo - tol then
               -- a route cheaper than the oracle optimum that provably enters a shape is the cut-through of the
               -- naive visibility test (same finding as "shorter-than-optimum" at penalty 0): rigorous SPECFAIL
-              let hit := (legs rt).findSome? fun l => firstHit tol [] shapes 0 l
+              let hit := (legs rt).findSome? fun l => (firstHit tol [] shapes 0 l).map fun i => (i, l)
               match hit with
-              | some i =>
-                fails := (1, .specfail s!"shorter-than-optimum conn {id} (penalty {dec penalty}): route cost ≤ {dec implCostHi} is below the oracle optimum ≥ {dec witCostLo} and the route enters the interior of shape {i+1} (proven checker)") :: fails
+              | some (i, l) =>
+                -- structural signature of the known blind spot of the visibility tests (Lee's sweep, the naive test and
+                -- newBlockingShape alike accept a segment that passes exactly through two vertices of a shape, e.g. along a
+                -- rectangle's diagonal or through a corner and along a side): the entering leg contains >= 2 vertices of the shape
+                let onLeg (v : Pt) : Bool :=
+                  area2 l.1 l.2 v == 0 &&
+                  min l.1.x l.2.x ≤ v.x && v.x ≤ max l.1.x l.2.x && min l.1.y l.2.y ≤ v.y && v.y ≤ max l.1.y l.2.y
+                let nOn := ((shapes[i]?.getD []).filter onLeg).length
+                let sig := if nOn ≥ 2 then " [through-two-corners]" else ""
+                fails := (1, .specfail s!"shorter-than-optimum conn {id} (penalty {dec penalty}): route cost ≤ {dec implCostHi} is below the oracle optimum ≥ {dec witCostLo} and the route enters the interior of shape {i+1} (proven checker){sig}") :: fails
               | none =>
               fails := (22, .diverge s!"conn {id} (penalty {dec penalty}): route cost ≤ {dec implCostHi} is below the oracle optimum ≥ {dec witCostLo} (oracle not optimal, or route leaves the spec graph)") :: fails
   match fails.foldl (fun acc f => match acc with
